@@ -491,6 +491,30 @@ def run(prop, tier, seed, rep, std=True):
             summary.setdefault(k, [0, hists[hi]["id"], v["index"] - starts[hi]])[0] += 1
             rep.mismatch(owner, v["cls"], field, {"kind": "track", "history": hists[hi], "step_event_index": v["index"] - starts[hi],
                                                   "event": ev})
+    # the tracker of the allocation-only build (no clock, no expiry): the same contract, judged the same way
+    n_alloc = 0
+    if prop in ("C12", "C13", "C14"):
+        hxa = core.build_hx("alloc")
+        ah = [random_history(rng, f"a{i}", rng.choice((60, 200)), rng.choice((1, 2, 5)), with_time=False, with_serde=False)
+              for i in range(12 if tier == "quick" else 200)]
+        ah.append(neighbour_history(rng, "an0"))
+        ah += tie_histories(rng, 12 if tier == "quick" else 120)
+        agroups = run_histories(hxa, ah)
+        aevents = [e for g in agroups for e in g]
+        n_alloc = len(aevents)
+        averd, st2, tr2 = core.validate_events("Trace_Tracker", aevents, prop + "-alloc", shards=core.MAX_JVMS, boundary=lambda e: e["ev"] == "reset")
+        rep.add_trace_stats(st2, tr2, len(ah))
+        astarts, pos = [], 0
+        for g in agroups:
+            astarts.append(pos)
+            pos += len(g)
+        for v in averd:
+            hi = bisect.bisect_right(astarts, v["index"]) - 1
+            for owner, field in v["pairs"]:
+                summary.setdefault(f"{owner}|alloc|{v['cls']}|{field}", [0, ah[hi]["id"], v["index"] - astarts[hi]])[0] += 1
+                rep.mismatch(owner, v["cls"], field, {"kind": "track", "build": "alloc", "history": ah[hi], "step_event_index": v["index"] - astarts[hi],
+                                                      "event": aevents[v["index"]]})
+    rep.extra["alloc_build_tracker_events"] = n_alloc
     json.dump(summary, open(os.path.join(core.BUILD, f"last_{prop}_verdicts.json"), "w"), indent=1, sort_keys=True)
     if tier == "thorough":
         selftest(prop, rep, groups)
